@@ -26,9 +26,7 @@ def check(chk):
     r136(chk, m)
     from . import c15
     # the name generator is part of this property's mechanism: its freshness guard (uniqueness of output file names)
-    fn = m.func('plasTeX.Filenames', 'Filenames._newFilename')
-    for name, loop in c15.find_phases(fn):
-        c15.phase_rules(chk, m, fn, name, loop)
+    c15.generator_rules(chk, m, rule_id='R13.7')
     chk.decline('the partition of body text over files for every split level and template (runtime)')
 
 
